@@ -681,7 +681,8 @@ def run(chk: Check):
         if quick:
             _replay_rows(chk, _export(chk, ("all", [0], [9], allv, False), "all flag words"), "all flag words")
         else:
-            for pc in known + unknown[:1]:
+            kinds = [9, 47, 255] + [x for x in known if x not in (9, 47, 255)][:1] + unknown[:1]   # prim, avatar, tree, other, unknown
+            for pc in kinds:
                 _replay_rows(chk, _export(chk, ("all", [0], [pc], allv, False), "all flag words pcode %d" % pc),
                              "all flag words")
         _replay_rows(chk, _export(chk, (sel, [0, 2048, 63488], known + unknown, [1, 2, 3], False),
